@@ -32,6 +32,13 @@ def answers(p):
     return out
 
 
+def cause(x, y, diff):
+    """the recorded finding that explains a difference, judged on the whole answers: FROZENSET's constant is an AST node, whose text is an address"""
+    if all("<ast.Set object at" in str(x[k]) + str(y[k]) for k in diff):
+        return "frozenset-constant"
+    return None
+
+
 def all_answers(reverse=False):
     """answers for every corpus program, asked in corpus order (or in the reverse order: what was analysed before a pickle differs)"""
     res = {}
@@ -76,7 +83,7 @@ for name, (hexdata, a1) in first.items():
     for tag, a in (("other order", a2), ("asked again", a3), ("re-parsed copy", a4), ("read at a non-zero stream offset", a5)):
         diff = [k for k in a1 if a1[k] != a[k]]
         if diff:
-            fails.append({"program": name, "bytes": hexdata, "when": tag, "differs": diff, "first": {k: str(a1[k])[:200] for k in diff},
+            fails.append({"program": name, "bytes": hexdata, "when": tag, "differs": diff, "note": cause(a1, a, diff), "first": {k: str(a1[k])[:200] for k in diff},
                           "then": {k: str(a[k])[:200] for k in diff}})
             break
 if "--two-process" in sys.argv:
@@ -91,5 +98,6 @@ if "--two-process" in sys.argv:
         diff = [k for k in a1j if a1j[k] != a[k]]
         if diff:
             fails.append({"program": name, "bytes": hexdata, "when": "second process, other hash seed, programs asked in the opposite order", "differs": diff,
+                          "note": cause(a1j, a, diff),
                           "first": {k: str(a1j[k])[:200] for k in diff}, "then": {k: str(a[k])[:200] for k in diff}})
 print(json.dumps({"failures": spread(fails, lambda f: (re.sub(r"[0-9]+", "", f["program"]), f.get("when"), f.get("differs")), per=3), "n_failures": len(fails), "programs": n}))
